@@ -60,6 +60,7 @@ def gen_params(rng, variant=None):
         {"prod": "work", "assets": "lib", "shots": "film", "output": "out", "export": "exp", "renders": "img"},
         {"prod": "P", "assets": "A", "shots": "S", "output": "O", "export": "E", "renders": "R"}])
     p["mapping_style"] = "demo" if ident else rng.choice(["demo", "identity", "swap", "demo", "partial"])
+    p["leaf_per_basetype"] = False if ident else rng.random() < 0.5
     p["derived_configs"] = False if ident else rng.random() < 0.4      # secondary path configurations derived from the main module ("import *")
     p["constants"] = True if ident else rng.random() < 0.7
     p["explicit_intermediates"] = False if ident else rng.random() < 0.4
@@ -80,6 +81,7 @@ def build(p):
     A, S, P = p["bt_asset"], p["bt_shot"], p["bt_project"]
     ca, cs, cr = p["code_asset"], p["code_shot"], p["code_render"]
     leaf = K["ext"]
+    leaf_r = "img" if p.get("leaf_per_basetype") else leaf      # "a leaf key per basetype": the render basetype may name its own
     # ----- sid levels
     a_levels = [K["project"], K["type"]] + ([K["assettype"]] if p["with_assettype"] else []) + [K["asset"]] + \
                ([K["layer"]] if p["with_step"] else []) + [K["task"], K["version"], K["state"]]
@@ -117,7 +119,7 @@ def build(p):
     if p["third_basetype"]:
         R = "render"
         r_levels = [K["project"], K["type"], K["pass"], K["version"]]
-        T.append((R + "__file", tpl(r_levels, cr, leaf, "images")))
+        T.append((R + "__file", tpl(r_levels, cr, leaf_r, "images")))
         T.append((R + "__" + K["version"], tpl(r_levels, cr)))
         T.append((R, tpl(r_levels[:2], cr)))
         to_ex.append(R + "__" + K["version"])
@@ -147,7 +149,7 @@ def build(p):
             "{%s:scenes}" % leaf: "{%s:%s}" % (leaf, _alt(p["scenes"])),
             "{%s:caches}" % leaf: "{%s:%s}" % (leaf, _alt(p["caches"])),
             "{%s:movies}" % leaf: "{%s:%s}" % (leaf, _alt(p["movies"])),
-            "{%s:images}" % leaf: "{%s:%s}" % (leaf, _alt(images)),
+            "{%s:images}" % leaf_r: "{%s:%s}" % (leaf_r, _alt(images)),
             "{%s:%s}" % (K["type"], ca): "{%s:%s}" % (K["type"], _alt([ca])),
             "{%s:%s}" % (K["type"], cs): "{%s:%s}" % (K["type"], _alt([cs])),
             "{%s:%s}" % (K["type"], cr): "{%s:%s}" % (K["type"], _alt([cr])),
@@ -171,11 +173,11 @@ def build(p):
     alias = {k: v for k, v in alias.items() if v}
     key_types = {A: a_levels + [leaf], S: s_levels + ([K["node"]] if p["with_node"] else []) + [leaf], P: [K["project"]]}
     if R:
-        key_types[R] = [K["project"], K["type"], K["pass"], K["version"], leaf]
+        key_types[R] = [K["project"], K["type"], K["pass"], K["version"], leaf_r]
     leaf_keys = {A: leaf, S: leaf, P: leaf, None: leaf}
     narrowing = {A: "%s=~%s" % (K["type"], ca), S: "%s=~%s" % (K["type"], cs)}
     if R:
-        leaf_keys[R] = leaf
+        leaf_keys[R] = leaf_r
         narrowing[R] = "%s=~%s" % (K["type"], cr)
     if W:
         key_types[W] = w_levels + [leaf]
@@ -245,7 +247,7 @@ def build(p):
     PT.append((S, fs(s_dir[:3])))
     if R:
         r_dir = [ph(K["project"]), F["prod"], ph(K["type"], "RENDERSDIR"), ph(K["pass"]), ph(K["version"])]
-        PT.append((R + "__file", fs(r_dir, sep.join([ph(K["pass"]), ph(K["version"])]) + "." + ph(leaf, "images"))))
+        PT.append((R + "__file", fs(r_dir, sep.join([ph(K["pass"]), ph(K["version"])]) + "." + ph(leaf_r, "images"))))
         PT.append((R + "__" + K["version"], fs(r_dir)))
         PT.append((R + "__" + K["pass"], fs(r_dir[:-1])))
         PT.append((R, fs(r_dir[:3])))
